@@ -275,7 +275,8 @@ static void multi_case(Case& c) {
     IRaster npop(rows, cols, 1), extra(rows, cols, 0);
     for (int a = 0; a < rows; a++) for (int b = 0; b < cols; b++) extra(a, b) = rng.coin(45) ? 0 : rng.in(1, 10);
     int over_a = rng.in(0, rows - 1), over_b = rng.in(0, cols - 1);
-    DRaster weather(rows, cols, 1.0);
+    DRaster weather(rows, cols, 1.0), weather_sd0(rows, cols, 0.0);
+    bool weather_dist = (c.index % 3) == 1;   // no extra random draw: the generated cases stay what they were
     std::vector<DRaster> temperatures, survival_rates;
     for (int k = 0; k < 6; k++) {
         DRaster t(rows, cols, 0.0), sr(rows, cols, 1.0);
@@ -459,7 +460,8 @@ static void multi_case(Case& c) {
         }
         if (use_weather)
             for (int a = 0; a < rows; a++) for (int b = 0; b < cols; b++) { int w64 = rng.coin(12) ? 0 : (rng.coin(30) ? 64 : rng.in(1, 64)); if (over_one && a == over_a && b == over_b) w64 = 64; weather(a, b) = w64 / 64.0; cur_w64[(size_t)(a * cols + b)] = w64; }
-        if (use_weather) model.environment().update_weather_coefficient(weather);
+        // a third of the weather cases: coefficients through the probabilistic path with standard deviation 0 (= the mean)
+        if (use_weather) { if (weather_dist) model.environment().update_weather_from_distribution(weather, weather_sd0, model.random_number_generator()); else model.environment().update_weather_coefficient(weather); }
         out << "mm.env " << step << " npop=";
         for (int a = 0; a < rows; a++) for (int b = 0; b < cols; b++) out << (a + b ? "," : "") << npop(a, b);
         out << " w=";
